@@ -60,7 +60,7 @@ H6 = {
  "C01-7": "broken proof only (SrcEquivDongleM: _send_data_in_chunks is no longer the model's chunk loop); a failing input needs a device that consumed a chunk whose answer was then lost - the simulators answer or fail, they do not do both",
  "C01-8": "caught at the first attempt",
  "C05-7": "caught at the first attempt",
- "C05-8": "broken proof only (SrcEquivBlockM: _do_block_operation); ten-brother lists are among the generated cases, but the oracle has no independent notion of 'the middleware gave up on a legal request' (it demands 0/1 exactly when the device reported success); forcing such a case into every run was tried and withdrawn: under seeded C05-4 it made the check itself run without end",
+ "C05-8": "broken proof only (SrcEquivBlockM: _do_block_operation); ten-brother lists are among the generated cases, but the oracle has no independent notion of 'the middleware gave up on a legal request' (it demands 0/1 exactly when the device reported success); forcing such a case into every run was tried and withdrawn for lack of time to judge it: seeded C05-4 makes a proof script of SrcEquivBlockM run into the 1500 s build limit, so that check takes about half an hour before it reports",
  "C06-7": "missed (every declared tweak was 32 bytes); caught after chains declare - and are genuinely signed under - tweaks of 1..40 bytes",
  "C06-8": "caught at the first attempt",
  "C07-7": "broken tie only (correspondence: the foreign chain that ships its own root is judged differently by model and implementation); the oracle compares verdicts, and that chain is rejected further down under the change too",
